@@ -188,12 +188,46 @@ func (br branch) eqIntSlot(k int64, want bool) (int, bool) {
 }
 
 // loadOfField reports whether v is a load (UnOp * of FieldAddr, or Field) of Owner.Field.
-func loadOfField(v ssa.Value, name string) bool {
+func loadOfField(v ssa.Value, name string) bool { return loadOfFieldDepth(v, name, 0) }
+
+func loadOfFieldDepth(v ssa.Value, name string, depth int) bool {
 	v = stripValue(v)
 	switch x := v.(type) {
+	case *ssa.Call:
+		// a getter: a function with a body all of whose returns hand out a load of the field (`m.isDestroyed()`,
+		// also when it takes a lock around the read)
+		g := x.Call.StaticCallee()
+		if g == nil || len(g.Blocks) == 0 || depth > 1 || x.Call.IsInvoke() {
+			return false
+		}
+		n := 0
+		for _, b := range g.Blocks {
+			if b == g.Recover {
+				continue
+			}
+			for _, in := range b.Instrs {
+				if ret, ok := in.(*ssa.Return); ok {
+					if len(ret.Results) != 1 || !loadOfFieldDepth(ret.Results[0], name, depth+1) {
+						return false
+					}
+					n++
+				}
+			}
+		}
+		return n > 0
 	case *ssa.UnOp:
 		if x.Op != token.MUL {
 			return false
+		}
+		if cell, ok := x.X.(*ssa.Alloc); ok && depth > 0 {
+			// a getter's result spilled into a local because of a defer: every value stored there is a load of the field
+			sts := storesInto(cell)
+			for _, st := range sts {
+				if !loadOfFieldDepth(st.Val, name, depth+1) {
+					return false
+				}
+			}
+			return len(sts) > 0 && depth < 4
 		}
 		fa, ok := x.X.(*ssa.FieldAddr)
 		if !ok {
@@ -524,6 +558,136 @@ func trueOnlyBehind(g *ssa.Function, cut map[edge]bool, isPred func(ssa.Value) b
 		leaf(retOperand(ret, 0), nil, ret.Block(), map[*ssa.Phi]bool{})
 	}
 	return n > 0 && okAll
+}
+
+// gateItem: one way a guarding condition shows up in the code — as the edge of a branch on it, or as a boolean
+// value a helper hands back (the last operand of `return a && b` is not branched on inside the helper).
+type gateItem struct {
+	e *edge
+	v ssa.Value
+}
+
+// returnLeaves: the values a boolean helper may answer — return operands, phi operands looked through; constants
+// are left out.
+func returnLeaves(g *ssa.Function) []ssa.Value {
+	var out []ssa.Value
+	seen := map[ssa.Value]bool{}
+	var leaf func(v ssa.Value)
+	leaf = func(v ssa.Value) {
+		if v == nil || seen[v] {
+			return
+		}
+		seen[v] = true
+		if ph, ok := v.(*ssa.Phi); ok {
+			for _, e := range ph.Edges {
+				leaf(e)
+			}
+			return
+		}
+		if _, ok := v.(*ssa.Const); ok {
+			return
+		}
+		out = append(out, v)
+	}
+	for _, in := range instrsWhereOne(g, isReturn) {
+		if ret := in.(*ssa.Return); len(ret.Results) == 1 && g.Recover != ret.Block() {
+			leaf(ret.Results[0])
+		}
+	}
+	return out
+}
+
+// gateItemsIn: the gate items of f and its helpers for a condition given as a predicate on a decomposed
+// condition; holds answers on which truth value of the un-negated relation the gate is open (ok=false: not this gate).
+func gateItemsIn(f *ssa.Function, holds func(ci condInfo) (rel bool, ok bool)) []gateItem {
+	var out []gateItem
+	for _, br := range branchesIn(f) {
+		if rel, ok := holds(br.Info); ok {
+			e := edge{br.If.Block(), br.slotWhenRel(rel)}
+			out = append(out, gateItem{e: &e})
+		}
+	}
+	for _, g := range append([]*ssa.Function{f}, helpersOf(f)...) {
+		if g == f || g.Signature.Results().Len() != 1 {
+			continue
+		}
+		if b, ok := g.Signature.Results().At(0).Type().Underlying().(*types.Basic); !ok || b.Kind() != types.Bool {
+			continue
+		}
+		for _, v := range returnLeaves(g) {
+			ci := decompose(v)
+			if rel, ok := holds(ci); ok && rel != ci.Neg { // the value itself is true exactly when the gate is open
+				out = append(out, gateItem{v: v})
+			}
+		}
+	}
+	return out
+}
+
+// cutsFor: the cut-edge set that stands for "none of the gate items is open": the items' own edges, plus the true
+// edges of branches (in f and its helpers) on calls of boolean helpers that can answer true only behind the items.
+func cutsFor(f *ssa.Function, items []gateItem) map[edge]bool {
+	cut := map[edge]bool{}
+	vals := map[ssa.Value]bool{}
+	for _, it := range items {
+		if it.e != nil {
+			cut[*it.e] = true
+		}
+		if it.v != nil {
+			vals[it.v] = true
+		}
+	}
+	for changed, round := true, 0; changed && round < 4; round++ {
+		changed = false
+		for _, br := range branchesIn(f) {
+			c, ok := stripValue(br.Info.Root).(*ssa.Call)
+			if !ok {
+				continue
+			}
+			g := transparentCallee(br.If.Parent(), c)
+			if g == nil || g.Signature.Results().Len() != 1 {
+				continue
+			}
+			sl, ok := br.truthSlot(true)
+			if !ok || cut[edge{br.If.Block(), sl}] {
+				continue
+			}
+			// with the item values assumed false: does g still answer true somewhere?
+			if trueOnlyBehindAssuming(g, cut, vals) {
+				cut[edge{br.If.Block(), sl}] = true
+				changed = true
+			}
+		}
+	}
+	return cut
+}
+
+// trueOnlyBehindAssuming: as trueOnlyBehind, where the values in falseVals are known to be false (they count as
+// constant-false results) — and at least one of them or one cut edge lies in g, so that a helper that has nothing to
+// do with the gate is not cut.
+func trueOnlyBehindAssuming(g *ssa.Function, cut map[edge]bool, falseVals map[ssa.Value]bool) bool {
+	concerned := false
+	for e := range cut {
+		if e.From.Parent() == g {
+			concerned = true
+		}
+	}
+	for v := range falseVals {
+		if in, ok := v.(ssa.Instruction); ok && in.Parent() == g {
+			concerned = true
+		}
+	}
+	if !concerned {
+		return false
+	}
+	return trueOnlyBehind(g, cut, func(x ssa.Value) bool {
+		for v := range falseVals {
+			if stripValue(v) == x {
+				return true
+			}
+		}
+		return false
+	})
 }
 
 // boolHelperCall: c calls a transparent helper with a single boolean result.
